@@ -190,8 +190,15 @@ def r03_2(facts, res, rule, ex, fn_filter):
         res.sample({"rule": rule, "fn": a["fn"], "alt": a["ord"], "arms": len(a["arms"]),
                     "first_recursive_nonterminals": [sorted({n for _, n in x}) for x in firsts],
                     "verdict": "shared" if shared else "disjoint"}, limit=20)
+        def label(arm):
+            r = set()
+            e2._refs(arm, r)
+            names = sorted(facts.fns[x]["path"].split("::")[-1] for x in r if x in facts.fns and x in rec)
+            return "+".join(names)[:60] or "?"
         for nt, arms in sorted(shared.items()):
-            res.add(Finding(rule, "%s|alt#%d|%s" % (a["fn"], a["ord"], nt),
+            # which alternative is tried first decides which nesting blows up: the order is part of the identity
+            order = "<".join(label(a["arms"][i - 1]) for i in sorted(arms))
+            res.add(Finding(rule, "%s|alt#%d|%s|%s" % (a["fn"], a["ord"], nt, order),
                             "alternatives %s of alt #%d in %s parse the recursive non-terminal %s after a common prefix: "
                             "nested input is re-parsed once per alternative and nesting level (exponential)"
                             % (sorted(arms), a["ord"], a["fn"], nt), f["file"], a.get("line"),
